@@ -425,8 +425,9 @@ pub fn jobs_for(p: &DefPlan, thorough: bool) -> (Vec<Job>, Option<(Vec<Vec<PTok>
             // an IF_DATA block without any content has nothing to interpret: not judged
             let exp = if inst.is_empty() {
                 Expect::DontCare
-            } else if conforms(&p.top, inst, false) && (!hs || conforms(&p.top, inst, true)) {
-                // (with char[n] members the library may read an identifier as a string: both readings must agree)
+            } else if conforms(&p.top, inst, false) {
+                // (conforming under the definition as written; that the library tolerates an identifier in place of a string in
+                // non-strict mode must not make it read conforming content differently)
                 Expect::Valid
             } else {
                 Expect::DontCare
